@@ -46,6 +46,8 @@ where
 {
     let mut assumed_response_time = Duration::from(1);
     while assumed_response_time <= divergence_limit {
+        #[cfg(feature = "verif")]
+        crate::verif_hooks::tick("fixed_point::search_with_offset");
         let demand = workload(assumed_response_time);
         let demand_met = Offset::from_time_zero(supply.service_time(demand));
         let response_time_bound = offset.distance_to(demand_met);
@@ -79,6 +81,8 @@ where
     RHS: Fn(Duration) -> Service,
 {
     for r in 1..=Time::from(divergence_limit) {
+        #[cfg(feature = "verif")]
+        crate::verif_hooks::tick("fixed_point::brute_force_search");
         let assumed_response_time = Duration::from(r);
         let lhs = supply.provided_service(offset.since_time_zero() + assumed_response_time);
         let rhs = workload(assumed_response_time);
